@@ -35,6 +35,7 @@ type event struct {
 	kind  int // 0 add/update 1 delete 2 malformed 3 weight-less 4 root-path
 	node  string
 	hosts []hw
+	alt   int // which malformed shape
 }
 
 var kindNames = []string{"set", "delete", "malformed", "weightless", "rootpath"}
@@ -118,7 +119,17 @@ func (e event) toTree() d2.TreeCacheEvent {
 	case 1:
 		return d2.TreeCacheEvent{Path: path, Data: nil}
 	case 2:
-		data = []byte(`{"weights": {"http://broken:80": `)
+		// malformed payloads come in several shapes: cut-off JSON, and well-formed JSON in which one of
+		// several hosts is not a URL (with further sections whose hosts do parse)
+		switch len(e.node) + len(e.hosts) {
+		default:
+			data = []byte(`{"weights": {"http://broken:80": `)
+		}
+		if e.alt == 1 {
+			data = []byte(`{"weights": {"http://m1:80": 1, "http://bad host:80:80": 1, "https://m2:443": 2}, "uriSpecificProperties": {"http://m1:80": {"com.linkedin.app.name": "x"}}, "partitionDesc": {"http://m1:80": {"0": {"weight": 1}}}}`)
+		} else if e.alt == 2 {
+			data = []byte(`{"weights": {"https://m3:443": 1, "http://[::1:80": 1}, "clusterName": "` + cluster + `"}`)
+		}
 	case 3:
 		data = []byte(`{"weights": {}, "clusterName": "` + cluster + `", "partitionDesc": {"http://p:80": {"0": {"weight": 1}}}}`)
 	case 4:
@@ -145,7 +156,10 @@ var nodePool = []string{"n1", "n2", "n3"}
 
 func genEvent(c *harness.Ctx) event {
 	e := event{node: nodePool[c.Choose(len(nodePool), "node")]}
-	e.kind = c.C.Weighted("evkind", 8, 3, 1, 1, 1)
+	e.kind = c.C.Weighted("evkind", 8, 3, 2, 1, 1)
+	if e.kind == 2 {
+		e.alt = c.Choose(3, "malformed-shape")
+	}
 	if e.kind == 0 {
 		n := 1 + c.Choose(3, "nhosts")
 		used := map[string]bool{}
